@@ -1,7 +1,7 @@
 SPECIFICATION Spec
 CONSTANTS
-  Config = "t3x"
-  T = 3
+  Config = "ops"
+  T = 2
   K = 1
   Thorough = TRUE
   RenderDepth = 6
